@@ -24,7 +24,7 @@ FUNCTIONS = [
     "lasio/las.py::LASFile.update_units_from_index_curve",
 ]
 STATES = ["scratch", "read-unchanged", "read-index-edited", "read-stop-mismatch", "read-other-curve-edited", "really-read-index-edited-in-place", "scratch-no-header-units", "really-read-integer-stop-mismatch"]
-INDEXES = {"increasing": [1.0, 2.0, 3.0], "decreasing": [30.0, 20.0, 10.0], "single": [5.0], "irregular": [1.0, 2.0, 4.5]}
+INDEXES = {"increasing": [1.0, 2.0, 3.0], "decreasing": [30.0, 20.0, 10.0], "single": [5.0], "irregular": [1.0, 2.0, 4.5], "fractional": [1000.125, 1000.75, 1001.375]}
 BOUNDS = {
     "quick": {"field_len_cap": 1, "sections": ["W", "P"], "states": STATES, "indexes": list(INDEXES), "task_budget_s": 900},
     "thorough": {"field_len_cap": 2, "sections": ["V", "W", "C", "P"], "states": STATES, "indexes": list(INDEXES), "task_budget_s": 3000},
@@ -36,7 +36,18 @@ ASSUMPTIONS = [
 ]
 WITNESS_TARGETS = ["refresh-required", "refresh-not-required", "wrap-option-given", "version-option-differs-from-memory", "single-sample-index"]
 EXCLUSIONS = {}
-OPTS = [{}, {"version": 1.2}, {"version": 2}, {"wrap": True}, {"wrap": False}, {"fmt": "%.2f"}, {"version": 1.2, "wrap": True, "fmt": "%.3f"}]
+OPTS = [{}, {"version": 1.2}, {"version": 2}, {"wrap": True}, {"wrap": False}, {"fmt": "%.2f"}, {"version": 1.2, "wrap": True, "fmt": "%.3f"}, {"fmt": "%.0f", "column_fmt": {0: "%.3f"}}]
+
+
+def tol(opts, k):
+    """'to format precision': half a unit of the last digit the index column is printed with (a whole unit for STEP,
+    a difference of two printed values)"""
+    import re
+
+    f = opts.get("column_fmt", {}).get(0, opts.get("fmt", "%.5f"))
+    m = re.search(r"\.(\d+)f", f)
+    p = int(m.group(1)) if m else 5
+    return (1.0 if k == "STEP" else 0.5) * 10 ** (-p) * (1 + 1e-9)
 
 
 def tasks(tier):
@@ -202,7 +213,7 @@ def harness(ns, params):
             unit, val = written_value(lines1, k)
             obl.append(("written-%s-unit-is-index-unit" % k, unit == cu))
             if refresh and want is not None:
-                obl.append(("written-%s-truthful" % k, val is not None and W.num_or_none(val) is not None and abs(W.num_or_none(val) - float(fmt % want)) < 1e-12))
+                obl.append(("written-%s-truthful" % k, val is not None and W.num_or_none(val) is not None and abs(W.num_or_none(val) - want) <= tol(opts, k)))
         core.oblige_all(obl)
         return {"observed": {"raised": None, "STRT": written_value(lines1, "STRT"), "STOP": written_value(lines1, "STOP"), "STEP": written_value(lines1, "STEP")}}
 
@@ -250,7 +261,7 @@ def replay(i):
         unit, val = written_value(lines1, k)
         obl.append(("written-%s-unit-is-index-unit" % k, unit == "FT"))
         if refresh and want is not None:
-            obl.append(("written-%s-truthful" % k, val is not None and W.num_or_none(val) is not None and abs(W.num_or_none(val) - float(fmt % want)) < 1e-12))
+            obl.append(("written-%s-truthful" % k, val is not None and W.num_or_none(val) is not None and abs(W.num_or_none(val) - want) <= tol(opts, k)))
     bad = [n for n, c in obl if not bool(c)]
     return {"ok": not bad, "detail": "ok" if not bad else "violated: %r; state=%s index=%s options=%r; first output:\n%s" % (bad, state, idx_name, opts, "\n".join(lines1[:30])),
             "observed": {"raised": None, "STRT": written_value(lines1, "STRT"), "STOP": written_value(lines1, "STOP"), "STEP": written_value(lines1, "STEP")}}
